@@ -742,7 +742,59 @@ def write_splits(splits, problems):
     for p in problems: lines.append(f'(* PROBLEM: {p} *)')
     emit('SplitFns.v', '\n'.join(lines) + '\n')
 
+def extract_accessors():
+    """the `IterManager` accessors of both variants: each index getter / setter touches exactly its own field, once, unconditionally;
+    the liveness getters read their own flag; the liveness setters write their own flag and answer `no flag is set any more`"""
+    rows = []; problems = []
+    def body_of(txt, name):
+        m = re.search(r'\bfn\s+' + name + r'\s*\(([^)]*)\)[^{;]*\{', txt)
+        if not m: return None, None
+        i = m.end() - 1; d = 0; j = i
+        while j < len(txt):
+            if txt[j] == '{': d += 1
+            elif txt[j] == '}':
+                d -= 1
+                if d == 0: break
+            j += 1
+        b = re.sub(r'\s+', '', txt[i + 1:j])
+        b = re.sub(r'^unsafe\{(.*)\}$', r'\1', b)
+        return m.group(1), b.rstrip(';')
+    for variant, rel in (('local', 'ring_buffer/variants/local_rb.rs'), ('conc', 'ring_buffer/variants/concurrent_rb.rs')):
+        path = os.path.join(REPO, 'src', rel)
+        try: txt = strip_comments(open(path).read())
+        except OSError: problems.append(f'{rel}: missing'); continue
+        i0 = txt.find('IterManager for')
+        if i0 < 0: problems.append(f'{rel}: no IterManager impl'); continue
+        t = txt[i0:]
+        for st in ('prod', 'work', 'cons'):
+            for acc, templates in (
+                (f'{st}_index', [rf'\*self\.{st}_idx\.get\(\)', rf'self\.{st}_idx\.load\((?:Ordering::)?\w+\)']),
+                (f'set_{st}_index', [rf'\*self\.{st}_idx\.get\(\)=index', rf'self\.{st}_idx\.store\(index,(?:Ordering::)?\w+\)']),
+                (f'{st}_alive', [rf'\*self\.{st}_alive\.get\(\)', rf'self\.alive\.load\((?:Ordering::)?\w+\)&{st.upper()}_ALIVE!=0']),
+                (f'set_{st}_alive', [rf'(?:unsafe\{{)?\*self\.{st}_alive\.get\(\)=alive;?\}}?!\(self\.prod_alive\(\)\|\|self\.work_alive\(\)\|\|self\.cons_alive\(\)\)',
+                                     rf'self\.set_alive\({st.upper()}_ALIVE,alive\)'])):
+                params, b = body_of(t, acc)
+                ok = b is not None and any(re.fullmatch(tp, b) for tp in templates)
+                rows.append((variant, acc, ok))
+                if not ok: problems.append(f'{rel}::{acc}: body `{b}` is not a plain access of its own field')
+    return rows, problems
+
+def write_accessors(rows, problems):
+    lines = ['(* GENERATED by tools/extract_facts.py from /repo/src on every run - do not edit *)',
+             'From Coq Require Import List String Bool.', 'Import ListNotations.', 'Open Scope string_scope.', '',
+             '(* IterManager accessors of the Local and the Concurrent variant: (variant, accessor, is it a plain, unconditional access of its own field?) *)',
+             'Definition accessors : list (string * string * bool) := [']
+    lines.append(';\n'.join(f'  ("{v}", "{a}", {b(ok)})' for v, a, ok in rows))
+    lines.append('].')
+    lines.append(f'Definition extractor_clean : bool := {b(not problems)}.')
+    for p in problems: lines.append(f'(* PROBLEM: {p} *)')
+    emit('Accessors.v', '\n'.join(lines) + '\n')
+
 def main():
+    ar, ap = extract_accessors()
+    write_accessors(ar, ap)
+    for x in ap: print('extract_facts: PROBLEM:', x)
+    print(f'extract_facts: {len(ar)} accessors')
     sp, spp = extract_splits()
     write_splits(sp, spp)
     for x in spp: print('extract_facts: PROBLEM:', x)
